@@ -444,7 +444,14 @@ fn uri(sz: Sz) -> BoxedStrategy<UriC> {
 }
 
 fn display_name(sz: Sz) -> BoxedStrategy<Option<String>> {
-    prop_oneof![2 => Just(None), 3 => trimmed_text(sz.s).prop_map(Some)].boxed()
+    // the printer always quotes a display name, and the content of a quoted string is kept as written: blanks
+    // (ASCII or Unicode) at its edges belong to the name (fix 16f20b0; before it they were trimmed away)
+    let edge = || prop_oneof![6 => Just(String::new()), 1 => sel(&[" ", "\t", "  ", "\u{3000}", "\u{a0}", "\u{2003}", " \u{85}"]).prop_map(|e| e.to_string())];
+    prop_oneof![
+        2 => Just(None),
+        3 => (edge(), trimmed_text(sz.s), edge()).prop_map(|(a, t, b)| Some(format!("{a}{t}{b}"))),
+    ]
+    .boxed()
 }
 
 fn name_addr(sz: Sz) -> BoxedStrategy<NameAddrC> {
@@ -3136,14 +3143,14 @@ fn reason_phrase() -> BoxedStrategy<String> {
         3 => sel(&[" ", "\t", ";", "/", "?", ":", "@", "&", "=", "+", "$", ",", "-", "_", ".", "!", "~", "*", "'", "(", ")", "%41"]),
         1 => multibyte_char().prop_map(|c| c.to_string()),
     ];
-    vec(atom, 1..=16)
-        .prop_map(|v| {
-            let t = v.concat().trim().to_string();
-            if t.is_empty() {
-                s("OK")
-            } else {
-                t
-            }
+    // only SP / HTAB are linear white space around the phrase; other Unicode blanks at its edges are phrase text
+    // (fix 964680f; before it the status-line parser trimmed them away)
+    let edge = || prop_oneof![6 => Just(String::new()), 1 => sel(&["\u{3000}", "\u{a0}", "\u{2003}", "\u{85}", "\u{2028}"]).prop_map(|e| e.to_string())];
+    (edge(), vec(atom, 1..=16), edge())
+        .prop_map(|(a, v, b)| {
+            let t = v.concat().trim_matches(|c| c == ' ' || c == '\t').to_string();
+            let t = if t.is_empty() { s("OK") } else { t };
+            format!("{a}{t}{b}")
         })
         .boxed()
 }
